@@ -409,6 +409,9 @@ def run(chk: Check) -> None:
     n = 1 if tier == "quick" else 10
     rx.validate(chk, ["re_md_specials", "re_md_numeral", "re_pangu", "re_line_break"], tier, per_pattern=600 if tier == "quick" else None)
     validate_block_start_spec(chk, 1500 * n)
+    import readspec
+    readspec.validate_all(chk, 1200 * n)
+    readspec.ports_inline(chk, 1500 * n)
     opts = docports.OPTION_SETS[:10]
     gen_docs.AVOID = {"tags_in_prose", "html_block_words", "bare_url", "mixed_ordered_delims", "break_in_list", "tags_in_containers", "backslash_word", "footnote_in_container", "marker_first_word", "refdef_in_container", "nested_bracket_links"}
     cases = docports.gen_cases(chk, 500 * n, malformed_share=0.0, opts=opts)
